@@ -445,7 +445,8 @@ TEXT = ("Exhaustive over the stated small scope (every index column over two 3-n
         "pair is compared with a literal implementation of the documented semantics on rows[...], rows.indices and "
         "rows.mask, the composition law is observed on the real table, and the outputs are fingerprinted and compared "
         "across hash seeds in separate processes."
-        ' Fresh selector texts are first used on a sibling table built with other regex flags (process-wide state must not leak between tables).')
+        ' Fresh selector texts are first used on a sibling table built with other regex flags (process-wide state must not leak between tables).'
+        " The warm table's index column is replaced five ways (item, attribute, del+set, pop+set, cell by cell) and every selector compared again; tables built with non-default separators / regex flags obey the composition law and the reference semantics (defect F22).")
 NOTE = ("Trusted: vlib/tableref.select as the reading of the documented semantics. KF4 (literal-name fast path for "
         "'name::count' shadows case-insensitive regex matches) is classified by mechanism.")
 TECHNIQUE = "runtime monitoring: reference-model oracle per selector and selector pair (exhaustive small scope) + cross-configuration output comparison over PYTHONHASHSEED in separate processes"
